@@ -25,7 +25,7 @@ RULE = (
 )
 ASSUMPTIONS = [
     "3-D kinds, folium, vega, show_stats, log scales and exact colours are out of scope; colour is only required to be monotone in the value",
-    "density=True together with cumulative=True is not specified by the property and is not generated",
+    "density=True together with cumulative=True: the normalisation is not specified by the property; only proportionality of the heights to the cumulative sums is asserted",
 ]
 
 T = 1e-9
@@ -72,8 +72,22 @@ def check_mpl_1d(case, ctx: Ctx):
     try:
         if density and cumulative:
             # the heights of this combination are not specified; the plot must still leave the histogram alone
-            ctx.maybe(h.plot, kind, backend="matplotlib", **{k: v for k, v in opts.items() if k != "errors"})
+            ok_, ax_ = ctx.maybe(h.plot, kind, backend="matplotlib", **{k: v for k, v in opts.items() if k != "errors"})
             ctx.label("density_and_cumulative")
+            if ok_ and kind in ("bar", "line", "scatter"):
+                # cumulative=True: whatever common normalisation density=True adds, the heights are cumulative sums of
+                # the bin contents, i.e. proportional to cumsum(frequencies)
+                if kind == "bar":
+                    ys = np.array([r.get_height() for r in ax_.patches], dtype=float)
+                elif kind == "line":
+                    ys = np.asarray(ax_.lines[0].get_ydata(), dtype=float)
+                else:
+                    ys = np.asarray([c for c in ax_.collections if type(c).__name__ == "PathCollection"][0].get_offsets(), dtype=float)[:, 1]
+                cum = np.cumsum(np.asarray(h.frequencies, dtype=float))
+                if len(ys) == n and cum[-1] > 0 and np.all(np.isfinite(ys)):
+                    for i in range(n):
+                        require(abs(ys[i] * cum[-1] - cum[i] * ys[-1]) <= 1e-9 * max(abs(ys[-1] * cum[-1]), 1e-300), "cumulative_not_proportional",
+                                f"{kind} density+cumulative heights {ys.tolist()} are not proportional to the cumulative sums {cum.tolist()}")
             require(snap_equal(before, snapshot(h)), "plot_modified_histogram", lambda: snap_diff(before, snapshot(h)))
             return
         ax = ctx.call(f"plot {kind}", h.plot, kind, backend="matplotlib", **opts)
@@ -154,7 +168,9 @@ def check_mpl_1d(case, ctx: Ctx):
     require(snap_equal(before, snapshot(h)), "plot_modified_histogram", lambda: snap_diff(before, snapshot(h)))
     irregular = len({round(w, 12) for w in widths}) > 1
     has_zero = bool(np.any(np.asarray(h.frequencies) == 0))
-    ctx.nt(irregular and has_zero and (density or cumulative or errors))
+    ctx.nt(irregular and (density or cumulative or errors))
+    if has_zero:
+        ctx.label("has_empty_bin")
 
 
 @st.composite
@@ -207,8 +223,19 @@ def luminance(rgba):
 def check_mpl_2d(case, ctx: Ctx):
     plt = plt_()
     h = ctx.call("build", hgen.build, case["spec"])
-    before = snapshot(h)
     kind = case["kind"]
+    if case.get("negative_cell") is not None and kind == "map" and all(b.bin_count for b in h.binnings):
+        # a bin pushed below zero by a negative weight (legal in fill): still a bin with a content of its own
+        i_, j_ = case["negative_cell"][0] % h.shape[0], case["negative_cell"][1] % h.shape[1]
+        mid_ = [float((h.bins[0][i_][0] + h.bins[0][i_][1]) / 2), float((h.bins[1][j_][0] + h.bins[1][j_][1]) / 2)]
+        f_ = np.asarray(h.frequencies, dtype=float).copy()
+        f_[i_, j_] = 0
+        ok_ = False
+        if f_.max() > 0:  # (a colour scale from 0 to a non-positive maximum does not exist: such histograms are out of scope)
+            ok_, _ = ctx.maybe(h.fill, mid_, -(float(np.asarray(h.frequencies)[i_, j_]) + 2.5))
+        if ok_ and float(np.asarray(h.frequencies)[i_, j_]) < 0:
+            ctx.label("negative_cell")
+    before = snapshot(h)
     opts = dict(case["opts"])
     density = opts.get("density", False)
     bx, by = np.asarray(h.bins[0], dtype=float), np.asarray(h.bins[1], dtype=float)
@@ -329,7 +356,7 @@ def mpl_2d_cases(draw, tier="quick"):
         opts["show_colorbar"] = draw(st.booleans())
     if kind == "image" and draw(st.booleans()) and any(x > 0 for x in hgen.flat(spec["freq"])):
         opts["cmap_normalize"] = "log"  # (colours are not checked; the image array and the histogram are)
-    return {"kind": kind, "spec": spec, "opts": opts}
+    return {"kind": kind, "spec": spec, "opts": opts, "negative_cell": draw(st.one_of(st.none(), st.none(), st.lists(st.integers(0, 5), min_size=2, max_size=2)))}
 
 
 # ---------------------------------------------------------------------------------
